@@ -45,7 +45,7 @@ func e2eLiveComponent(r *hx.Run) {
 		rescan := 120 + 20*rng.Intn(6)
 		oneCPU := it%2 == 1
 		withExcl := it%4 >= 2
-		withRate := rng.Intn(3) == 0
+		withRate := it%4 == 1 || rng.Intn(4) == 0
 		answering := it%3 != 0
 		args := []string{"arp", "--live", fmt.Sprintf("%dms", rescan)}
 		if rng.Intn(2) == 0 {
@@ -63,7 +63,8 @@ func e2eLiveComponent(r *hx.Run) {
 			args = append(args, "--exclude", ef)
 		}
 		if withRate {
-			args = append(args, "--rate", "400/s")
+			// 400/s: a pass is over in a blink; 60/s: a pass takes longer than the rescan time itself (and is still whole)
+			args = append(args, "--rate", []string{"400/s", "60/s"}[rng.Intn(2)])
 		}
 		args = append(args, fmt.Sprintf("%s/%d", v4Text(base), ones))
 		lab.settle(30 * time.Millisecond)
@@ -75,6 +76,9 @@ func e2eLiveComponent(r *hx.Run) {
 		passes := 4 + rng.Intn(3)
 		from := 0
 		stop := time.Now().Add(time.Duration(passes)*time.Duration(rescan+40)*time.Millisecond + 400*time.Millisecond)
+		if withRate {
+			stop = stop.Add(time.Duration(passes) * 270 * time.Millisecond)
+		}
 		for !p.exited() && time.Now().Before(stop) {
 			fs := lab.since(from)
 			from += len(fs)
